@@ -407,6 +407,20 @@ fn test_module(rng: &mut Rng, idx: usize, data: &[DataModule], n_tests: usize) -
         s.push_str(&body);
         s.push('\n');
     }
+    // Benchmarks (run by `aiken bench` through the same parallel runner as tests).
+    let n_bench = rng.usize_below(3);
+    if n_bench > 0 {
+        s.push_str(&format!(
+            "fn sample_list{idx}(size: Int) -> Fuzzer<List<Int>> {{\n  fuzz.list_n(fuzz.below(10), size)\n}}\n\n"
+        ));
+        for bi in 0..n_bench {
+            let d = if rng.chance(1, 2) { a } else { b };
+            s.push_str(&format!(
+                "bench b{idx}_{bi}(xs via sample_list{idx}) {{\n  {n}.total(xs) + {n}.len({n}.table)\n}}\n\n",
+                n = d.name
+            ));
+        }
+    }
     s
 }
 
